@@ -63,7 +63,10 @@ class Contract:
     def parse_clause(self, text):
         t = self._clauses.get(text)
         if t is None:
-            t = ast.parse(text.strip(), mode="eval").body
+            src_ = text.strip()
+            if src_.startswith("lemma:"):
+                src_ = src_[6:].strip()
+            t = ast.parse(src_, mode="eval").body
             self._clauses[text] = t
         return t
 
@@ -134,9 +137,15 @@ def bitlen(n):
     return int(n).bit_length()
 
 
+REPLAY_UNIVERSE = None   # set by the native replay: a finite window of integers around the values of the counter-example
+
+
 def forall_int(fn):
-    """Clause-level quantifier over all integers: forall_int(lambda k: P(k)). Not evaluable natively."""
-    raise NotImplementedError("forall_int is a proof-only quantifier")
+    """Clause-level quantifier over all integers: forall_int(lambda k: P(k)). Natively it can only be REFUTED: during a
+    replay it is evaluated over a finite window of integers around the counter-example's values."""
+    if REPLAY_UNIVERSE is None:
+        raise NotImplementedError("forall_int is a proof-only quantifier")
+    return all(fn(k) for k in REPLAY_UNIVERSE)
 
 
 def enum_key(member):
@@ -148,3 +157,13 @@ def forall_enum(cls, fn):
     """forall_enum(EnumClass, lambda m: P(m)): P holds for every member (natively: all(...))."""
     from .values import enum_members
     return all(fn(m) for m in enum_members(cls))
+
+
+def sorted_perm(j):
+    """Ghost (proof-only): index in the input of the element that the most recent sorted() call put at output index j."""
+    raise NotImplementedError("proof-only")
+
+
+def sorted_perm_inv(i):
+    """Ghost (proof-only): output index at which the most recent sorted() call put input element i."""
+    raise NotImplementedError("proof-only")
